@@ -187,3 +187,29 @@ Definition select_fixed {A : Type} (dialers : list A) (fixed_index : Z) : result
        | Some d => Ok d
        | None => Err ESelRange   (* unreachable *)
        end.
+
+(* NewDialerSetFromLinksContext (component/outbound/filter.go): `for subscriptionTag, nodes := range
+   tagToNodeList { for _, node := range nodes { d, err := NewFromLinkContext(...); if err != nil { log;
+   continue }; s.dialers = append(s.dialers, d); s.nodeToTagMap[d] = subscriptionTag } }`.
+   m lists the map entries in the iteration order taken; n_id is the index in s.dialers. *)
+Section DialerSet.
+  Variable link_name : string -> option string.   (* dialer.NewFromLinkContext: Some name / None = error *)
+
+  Fixpoint nodes_loop (tag : string) (nodes : list string) (dialers : list node) : list node :=
+    match nodes with
+    | [] => dialers
+    | link :: rest =>
+        match link_name link with
+        | None => nodes_loop tag rest dialers                      (* failed to parse node: continue *)
+        | Some nm => nodes_loop tag rest (dialers ++ [mkNode (N.of_nat (List.length dialers)) nm tag])
+        end
+    end.
+
+  Fixpoint tags_loop (m : tagged) (dialers : list node) : list node :=
+    match m with
+    | [] => dialers
+    | (tag, nodes) :: rest => tags_loop rest (nodes_loop tag nodes dialers)
+    end.
+
+  Definition new_dialer_set (m : tagged) : list node := tags_loop m [].
+End DialerSet.
